@@ -9,14 +9,15 @@ def srcCfg : Cfg :=
     envCatch := JediModel.Gen.C14.envCatch,
     closeStreams := JediModel.Gen.C14.cleanupCloseStreams.filterMap Stream.ofName?,
     closePerStream := JediModel.Gen.C14.cleanupClosePerStream,
-    closeCatch := JediModel.Gen.C14.cleanupCloseCatch }
+    closeCatch := JediModel.Gen.C14.cleanupCloseCatch,
+    usedSetBeforeRun := JediModel.Gen.C14.usedSetBeforeRun }
 
 def parseFault (phase cls : String) : Fault :=
   match phase with
   | "before_send" => .beforeSend
   | "after_send" => .afterSend
   | "trunc" => .trunc cls
-  | "raises" => .raises
+  | "raises" => .raises (if cls = "" then "RuntimeError" else cls)
   | "raises_fatal" => .raisesFatal
   | _ => .none
 
@@ -35,6 +36,7 @@ def parseOp (j : Json) : Op :=
 def outJson : Out → Json
   | .ok => jstr "ok"
   | .raised c => jstr c
+  | .remote c => jstr c
 
 def procJson (p : Proc) : Json :=
   jobj [("idx", jnat p.idx), ("crashed", jbool p.crashed), ("started", jbool p.started),
